@@ -267,7 +267,7 @@ impl<G: Group> SubCheck for Rt<G> {
         let n = G::cases(tier);
         match self.rd {
             Rd::Mem => n,
-            Rd::Adapter if self.reduced => (n / 100).clamp(64, G::REDUCED_MAX),
+            Rd::Adapter if self.reduced => (n / 100).min(G::REDUCED_MAX).max(16),
             Rd::Adapter => n / 2,
         }
     }
